@@ -60,7 +60,7 @@ func init() {
 					"(cancel, clock advanced, every armed deadline fires) is run against the real Serve loop under the controlled scheduler with a scripted listener/connections and a virtual clock; for each script every schedule with <= " + itoa(b) +
 					" deviations is executed. Oracles on the global event log: every Read is issued with a finite read deadline in the (virtual) future armed; a connection whose deadline fires is closed and never read or written again; " +
 					"when Serve returns the listener was closed before, every accepted connection is closed, and no handler entry/exit, read, write or close carries a later index; Serve does return (a state with no runnable thread is a deadlock violation). " +
-					"Further script families: the same scripts (one shorter) against a server in proxy mode; clock-driven pacing scripts (T = ten seconds pass, due deadlines expire, one more byte arrives) with the oracle 'no complete packet by the deadline armed when the wait began => closed'; scripts in which the caller closes the listener itself (L) before or after cancelling; steady-arrival scripts (after the cancellation new connections keep arriving and every blocked read reaches its deadline, R): Serve must have returned without an accept timeout ever firing. " +
+					"Further script families: the same scripts (one shorter) against a server in proxy mode; clock-driven pacing scripts (T = ten seconds pass, due deadlines expire, one more byte arrives) with the oracle 'no complete packet by the deadline armed when the wait began => closed'; scripts in which the caller closes the listener itself (L) before or after cancelling; steady-arrival scripts (after the cancellation new connections keep arriving and every blocked read reaches its deadline, R): Serve must have returned without an accept timeout ever firing; refused-remote scripts (U = a connection from a remote the secret store refuses, and which gives up when the context is over) before, around and after the cancellation: every accepted connection is closed when Serve has returned. " +
 					"states = scripts; transitions = primitive operations executed",
 				Extra: map[string]interface{}{"script_length": n, "deviation_bound_target": b}}
 		},
@@ -120,6 +120,7 @@ var c15Names = []string{
 	"H16 a lookup held up in the secret store across a reload, then another lookup for the same address",
 	"H17-full accounting through the DEFAULT file sink while the clock ticks; the file is /dev/full (every write fails)",
 	"H17-file accounting through the DEFAULT file sink while the clock ticks; the file is a scratch file",
+	"H18 two connections of clients that use a key the server does not have (the server answers each with its bad-secret reply)",
 	"H15 two connections of a server whose secret provider hands out ONE key slice (with spare capacity) to every connection",
 	"H14 two connections asking for user names in spellings the configuration does not have",
 	"H13 reload introducing new command patterns while a command with pattern rules is being authorized",
